@@ -34,8 +34,9 @@ def _mentions(e: ast.AST, chain: str) -> bool:
     return any(attr_chain(x) == chain for x in ast.walk(e) if isinstance(x, ast.Attribute))
 
 
-def _zip_pairs(node: ast.AST):
-    """Yield (zip_call, [arg texts], target_names, owner) for comprehensions / for loops over zip(...)."""
+def _zip_pairs(node: ast.AST, R=None):
+    """Yield (zip_call, [arg texts], target_names, owner) for comprehensions / for loops over zip(...), also when the
+    zip was materialised first (`pairs = tuple(zip(a, b)); for x, y in pairs`)."""
     for n in ast.walk(node):
         gens = []
         if isinstance(n, (ast.GeneratorExp, ast.ListComp, ast.SetComp)):
@@ -43,25 +44,66 @@ def _zip_pairs(node: ast.AST):
         elif isinstance(n, ast.For):
             gens = [(n.target, n.iter, n)]
         for tgt, it, owner in gens:
+            if R is not None and isinstance(it, ast.Name):
+                try:
+                    e_ = ast.parse(R(it), mode="eval").body
+                    while isinstance(e_, ast.Call) and isinstance(e_.func, ast.Name) and e_.func.id in ("tuple", "list") and len(e_.args) == 1:
+                        e_ = e_.args[0]
+                    if isinstance(e_, ast.Call) and call_attr(e_) == "zip":
+                        it = e_
+                except SyntaxError:
+                    pass
             if isinstance(it, ast.Call) and call_attr(it) == "zip" and len(it.args) == 2 and isinstance(tgt, ast.Tuple) and len(tgt.elts) == 2:
                 yield it, [unparse(a) for a in it.args], [unparse(e) for e in tgt.elts], owner
 
 
-def _field_evidence(fn: ast.FunctionDef, field: str, kind: str):
+def _resolver(fn: ast.FunctionDef, cfg: CFG):
+    """R(expr): text of expr with single-definition locals replaced by what they stand for (so that
+    `mine = self.args; ... len(mine)` reads `len(self.args)`), evaluated at the statement containing expr."""
+    from ..astutil import parent_map
+    from ..dataflow import resolved_text
+
+    pm = parent_map(fn)
+
+    def R(e: ast.AST) -> str:
+        st = e
+        while not isinstance(st, ast.stmt) and id(st) in pm:
+            st = pm[id(st)]
+        try:
+            at = cfg.node_of(st)
+        except AnalysisError:
+            return unparse(e)
+        try:
+            return resolved_text(cfg, e, at)
+        except Exception:
+            return unparse(e)
+
+    return R
+
+
+def _field_evidence(fn: ast.FunctionDef, field: str, kind: str, cfg: CFG | None = None, s: str | None = None, o: str | None = None):
     """Returns (len_nodes, elem_nodes, direct_nodes): AST nodes that constitute a discriminating
     comparison of `self.<field>` with `other.<field>`."""
-    s, o = f"self.{field}", f"other.{field}"
+    s, o = s or f"self.{field}", o or f"other.{field}"
+    R = _resolver(fn, cfg) if cfg is not None else unparse
     len_nodes, elem_nodes, direct_nodes = [], [], []
     for n in walk_local(fn):
         if isinstance(n, ast.Compare) and len(n.ops) == 1 and isinstance(n.ops[0], (ast.Eq, ast.NotEq)):
-            l, r = unparse(n.left), unparse(n.comparators[0])
+            l, r = R(n.left), R(n.comparators[0])
+            # index loop over both sequences: self.F[i].type != other.F[i].type  /  self.F[i] != other.F[i]
+            import re as _re
+
+            ml, mr = _re.fullmatch(r"(self|other)\." + field + r"\[(\w+)\](\.type)?", l), _re.fullmatch(r"(self|other)\." + field + r"\[(\w+)\](\.type)?", r)
+            if ml and mr and ml.group(1) != mr.group(1) and ml.group(2) == mr.group(2) and ml.group(3) == mr.group(3) and ((kind == "seq-types") == bool(ml.group(3))):
+                elem_nodes.append(n)
             if {l, r} == {s, o}:
                 direct_nodes.append(n)
             if {l, r} == {f"len({s})", f"len({o})"}:
                 len_nodes.append(n)
             if kind == "seq-types" and field == "results" and {l, r} == {"self.result_types", "other.result_types"}:
                 direct_nodes.append(n)
-    for z, args, names, owner in _zip_pairs(fn):
+    for z, args, names, owner in _zip_pairs(fn, R if cfg is not None else None):
+        args = [R(a_) if any(a_ is x_ for x_ in ast.walk(fn)) else unparse(a_) for a_ in z.args[:2]]
         if set(args) != {s, o}:
             continue
         strict = any(k.arg == "strict" and isinstance(k.value, ast.Constant) and k.value.value is True for k in z.keywords)
@@ -94,6 +136,9 @@ def _rejecting(fn: ast.FunctionDef, cfg: CFG, node: ast.AST) -> bool:
     sits in a for-loop body under such an `if`, or is a conjunct of the returned expression."""
     from ..astutil import parent_map
 
+    flow = _rejecting_flow(fn, cfg, node)
+    if flow is not None:
+        return flow
     pm = parent_map(fn)
     n = node
     neg = False  # parity of `not` above us
@@ -125,8 +170,103 @@ def _rejecting(fn: ast.FunctionDef, cfg: CFG, node: ast.AST) -> bool:
     return False
 
 
-def _check_fields(idx: Index, rep_rule, qual: str, fields: dict[str, str]) -> None:
-    f = idx.func(CORE, qual)
+def _accept_reachable(cfg: CFG, fn: ast.FunctionDef, start: int, env: dict[str, bool], avoid: set[int] | None = None, goal: int | None = None) -> bool:
+    """Can a non-False return be reached from CFG node `start`, when boolean flags follow `env`?  Light path
+    sensitivity: constant assignments `x = True/False` are tracked along the path and tests `x` / `not x` only
+    follow the consistent edge.  Exception edges are not followed."""
+    seen: set[tuple[int, frozenset]] = set()
+    stack = [(start, dict(env))]
+    while stack:
+        n, e = stack.pop()
+        key = (n, frozenset(e.items()))
+        if key in seen:
+            continue
+        seen.add(key)
+        if avoid is not None and n in avoid:
+            continue
+        if goal is not None and n == goal:
+            return True
+        node = cfg.nodes[n]
+        a = node.ast
+        if isinstance(a, ast.Return):
+            if goal is not None:
+                continue
+            if not _is_false(a.value):
+                # `return x` with x known False is a rejection too
+                if isinstance(a.value, ast.Name) and e.get(a.value.id) is False:
+                    continue
+                return True
+            continue
+        if isinstance(a, ast.Raise):
+            continue
+        if isinstance(a, (ast.Assign, ast.AnnAssign)):
+            tgts = a.targets if isinstance(a, ast.Assign) else [a.target]
+            for t in tgts:
+                if isinstance(t, ast.Name):
+                    v = a.value
+                    if isinstance(v, ast.Constant) and isinstance(v.value, bool):
+                        e[t.id] = v.value
+                    else:
+                        e.pop(t.id, None)
+        only = None
+        if node.kind == "test" and a is not None:
+            t = a
+            neg = False
+            while isinstance(t, ast.UnaryOp) and isinstance(t.op, ast.Not):
+                t, neg = t.operand, not neg
+            if isinstance(t, ast.Name) and t.id in e:
+                only = "T" if (e[t.id] != neg) else "F"
+        for m, lab in cfg.succ[n]:
+            if lab in ("exc", "assert"):
+                continue
+            if only is not None and lab in ("T", "F") and lab != only:
+                continue
+            stack.append((m, dict(e)))
+    return False
+
+
+def _rejecting_flow(fn: ast.FunctionDef, cfg: CFG, node: ast.AST) -> bool | None:
+    """Path-based version of `_rejecting`: the comparison `node` sits in an if-test or in `flag = <comparison>`;
+    when it detects a mismatch, no accepting return is reachable any more.  None = shape not handled here."""
+    from ..astutil import parent_map
+
+    pm = parent_map(fn)
+    # polarity of "mismatch" at the level of the enclosing statement expression
+    n, neg, in_all = node, False, False
+    is_ne = isinstance(node, ast.Compare) and isinstance(node.ops[0], ast.NotEq)
+    while id(n) in pm and not isinstance(pm[id(n)], ast.stmt):
+        p = pm[id(n)]
+        if isinstance(p, ast.UnaryOp) and isinstance(p.op, ast.Not):
+            neg = not neg
+        elif isinstance(p, ast.Call) and call_attr(p) == "all":
+            in_all = True
+        elif isinstance(p, ast.Call) and call_attr(p) == "any":
+            return None
+        n = p
+    st = pm.get(id(n))
+    if st is None:
+        return None
+    # value of the statement-level expression when a mismatch is detected
+    if isinstance(node, ast.Call):
+        expr_true_on_mismatch = neg
+    else:
+        expr_true_on_mismatch = (is_ne and not in_all and not neg) or ((not is_ne or in_all) and neg)
+    try:
+        nid = cfg.node_of(st if not isinstance(st, (ast.If, ast.While)) else st.test)
+    except AnalysisError:
+        return None
+    if isinstance(st, ast.If) and n is st.test:
+        lab = "T" if expr_true_on_mismatch else "F"
+        targets = [m for m, l_ in cfg.succ[nid] if l_ == lab]
+        return bool(targets) and not any(_accept_reachable(cfg, fn, m, {}) for m in targets)
+    if isinstance(st, ast.Assign) and len(st.targets) == 1 and isinstance(st.targets[0], ast.Name) and n is st.value:
+        env = {st.targets[0].id: expr_true_on_mismatch}
+        return not any(_accept_reachable(cfg, fn, m, dict(env)) for m, l_ in cfg.succ[nid] if l_ not in ("exc", "assert"))
+    return None
+
+
+def _check_fields(idx: Index, rep_rule, qual: str, fields: dict[str, str], module: str = CORE, exprs: dict[str, tuple[str, str]] | None = None, rule: str = "C03.R1") -> None:
+    f = idx.func(module, qual)
     fn = f.node
     cfg = CFG(fn)
     pos_returns = [n for n in walk_local(fn) if isinstance(n, ast.Return) and not _is_false(n.value)]
@@ -134,7 +274,8 @@ def _check_fields(idx: Index, rep_rule, qual: str, fields: dict[str, str]) -> No
         raise AnalysisError(f"{f.fq}: no positive return")
     for field, kind in fields.items():
         inst = f"{f.fq}:{field}"
-        ln, el, dr = _field_evidence(fn, field, kind)
+        se, oe = (exprs or {}).get(field, (None, None))
+        ln, el, dr = _field_evidence(fn, field, kind, cfg, se, oe)
         ln = [n for n in ln if isinstance(n, ast.Call) or _rejecting(fn, cfg, n)]
         el = [n for n in el if _rejecting(fn, cfg, n)]
         dr = [n for n in dr if _rejecting(fn, cfg, n)]
@@ -172,12 +313,14 @@ def _check_fields(idx: Index, rep_rule, qual: str, fields: dict[str, str]) -> No
                 if nret in ids:
                     continue
                 p = cfg.path_avoiding(cfg.entry, nret, lambda n: n.id in ids, follow_exc=False)
-                if p is not None:
+                # the path found may be infeasible through a boolean flag (`ok = False ... if not ok: return False`):
+                # confirm with the flag-sensitive search before reporting
+                if p is not None and _accept_reachable(cfg, fn, cfg.entry, {}, avoid=ids):
                     problems.append((f"{field}-bypass", f"a path reaches `{unparse(ret)}` (line {ret.lineno}) without the {what} comparison of {field}: " + " -> ".join(cfg.describe(p)[-4:])))
                     break
         if problems:
             for k, m in problems:
-                rep_rule.fail(inst, Finding("C03.R1", f.fq, k, m, f.loc))
+                rep_rule.fail(inst, Finding(rule, f.fq, k, m, f.loc))
         else:
             rep_rule.ok(inst, f"{f.loc} {field}: compared ({kind}) on every accepting path")
 
@@ -217,7 +360,7 @@ def check(idx: Index, rep: Report, tier: str) -> str:
                             if isinstance(n, ast.Compare) and {unparse(n.left), unparse(n.comparators[0])} == {f"{x}.type", f"{y}.type"} and _rejecting(f.node, cfg, n):
                                 tnodes.add(cfg.node_of(n))
                 head = cfg.node_of(owner)
-                ok = bool(tnodes) and (cfg.path_avoiding(head, ns, lambda n: n.id in tnodes) is None or cfg.path_avoiding(cfg.entry, head, lambda n: n.id in tnodes) is None)
+                ok = bool(tnodes) and (cfg.path_avoiding(head, ns, lambda n: n.id in tnodes) is None or cfg.path_avoiding(cfg.entry, head, lambda n: n.id in tnodes) is None or not _accept_reachable(cfg, f.node, cfg.entry, {}, avoid=tnodes, goal=head))
                 inst = f"{f.fq}:context[{a}]"
                 if ok:
                     r2.ok(inst, f"{f.loc} {a}.type compared before context[{a}] = {b}")
@@ -257,7 +400,9 @@ def check(idx: Index, rep: Report, tier: str) -> str:
     f = idx.func(CORE, "Region.is_structurally_equivalent")
     cfg = CFG(f.node)
     reg_loops = []
-    for z, args, names, owner in _zip_pairs(f.node):
+    R4 = _resolver(f.node, cfg)
+    for z, args, names, owner in _zip_pairs(f.node, R4):
+        args = [R4(a_) if any(a_ is x_ for x_ in ast.walk(f.node)) else unparse(a_) for a_ in z.args[:2]]
         if set(args) == {"self.blocks", "other.blocks"} and isinstance(owner, ast.For):
             a, b = (names[0], names[1]) if args[0] == "self.blocks" else (names[1], names[0])
             if any(isinstance(s, ast.Assign) and unparse(s.targets[0]) == f"context[{a}]" and unparse(s.value) == b for s in owner.body):
@@ -315,24 +460,10 @@ def check(idx: Index, rep: Report, tier: str) -> str:
         r5.fail(hf.fq, Finding("C03.R5", hf.fq, "hash-not-subset", f"__hash__ reads {sorted(extra)} which __eq__ does not compare: equal keys may hash differently", hf.loc))
     else:
         r5.ok(hf.fq, f"{hf.loc} hash reads {sorted(hr)} ⊆ eq reads")
-    need = {"self.name", "self.op.attributes", "self.op.properties", "self.op.operands", "self.op.result_types", "self.op.regions"}
-    missing = set()
-    for fld in need:
-        o = fld.replace("self.", "other.", 1)
-        ok = False
-        for n in walk_local(ef.node):
-            if isinstance(n, ast.Compare) and isinstance(n.ops[0], ast.Eq) and {unparse(n.left), unparse(n.comparators[0])} == {fld, o}:
-                ok = True
-            if isinstance(n, ast.Call) and call_attr(n) == "zip" and {unparse(a) for a in n.args} == {fld, o} and any(k.arg == "strict" for k in n.keywords):
-                ok = True
-        if not ok:
-            missing.add(fld)
-    ret = [n for n in walk_local(ef.node) if isinstance(n, ast.Return)]
-    conj = len(ret) == 1 and isinstance(ret[0].value, ast.BoolOp) and isinstance(ret[0].value.op, ast.And)
-    if missing or not conj:
-        r5.fail(ef.fq, Finding("C03.R5", ef.fq, "eq-coverage", f"OperationInfo.__eq__ does not compare {sorted(missing)} (or is not a conjunction): CSE would merge operations that differ there", ef.loc))
-    else:
-        r5.ok(ef.fq, f"{ef.loc} eq is a conjunction covering {len(need)} fields")
+    cse_fields = {"name": "val", "attributes": "val", "properties": "val", "operands": "val", "result_types": "val", "regions": "seq"}
+    cse_exprs = {"name": ("self.name", "other.name"), "attributes": ("self.op.attributes", "other.op.attributes"), "properties": ("self.op.properties", "other.op.properties"),
+                 "operands": ("self.op.operands", "other.op.operands"), "result_types": ("self.op.result_types", "other.op.result_types"), "regions": ("self.op.regions", "other.op.regions")}
+    _check_fields(idx, r5, "OperationInfo.__eq__", cse_fields, module=CSE, exprs=cse_exprs, rule="C03.R5")
     # terminators never keyed
     sf = idx.try_func(CSE, "CSEDriver._simplify_operation") or idx.func(CSE, "CSEDriver.simplify_operation")
     cfg = CFG(sf.node)
